@@ -12,10 +12,13 @@ PropFs == [name : {"n1"}, isnd : {TRUE}, tr : {NoTR}, tm : {<< >>}, params : {<<
           \cup [name : {"n1"}, isnd : {FALSE}, tr : {NoTR}, tm : Seq01(TMs), params : Seq01(ParamFs)]
           \cup [name : {"n2"}, isnd : {FALSE}, tr : TRs \ {NoTR}, tm : {<< >>}, params : {<< >>}]
 L2Fs == [name : {"VALARM"}, isnd : BOOLEAN, tr : {NoTR}, props : {<< >>}, comps : {<< >>}]
-L1Fs == [name : {"VEVENT"}, isnd : {TRUE}, tr : {NoTR}, props : {<< >>}, comps : {<< >>}]
-        \cup [name : {"VEVENT"}, isnd : {FALSE}, tr : TRs, props : (IF Big THEN Seq02(PropFs) ELSE Seq01(PropFs)), comps : Seq01(L2Fs)]
-TopFs == [name : {"VCALENDAR"}, isnd : {TRUE}, tr : {NoTR}, props : {<< >>}, comps : {<< >>}]
-         \cup [name : {"VCALENDAR"}, isnd : {FALSE}, tr : {NoTR}, props : {<< >>}, comps : Seq01(L1Fs)]
+L1FsOf(PS) == [name : {"VEVENT"}, isnd : {TRUE}, tr : {NoTR}, props : {<< >>}, comps : {<< >>}]
+              \cup [name : {"VEVENT"}, isnd : {FALSE}, tr : TRs, props : PS, comps : Seq01(L2Fs)]
+TopFsOf(PS) == [name : {"VCALENDAR"}, isnd : {TRUE}, tr : {NoTR}, props : {<< >>}, comps : {<< >>}]
+               \cup [name : {"VCALENDAR"}, isnd : {FALSE}, tr : {NoTR}, props : {<< >>}, comps : Seq01(L1FsOf(PS))]
+TopFs == TopFsOf(Seq01(PropFs))
+\* thorough: every pair of prop-filters as well, against a handful of component requests (the two dimensions are independent)
+TopFsBig == TopFsOf(Seq02(PropFs))
 Sel == {<<TRUE, << >>>>, <<FALSE, << >>>>, <<FALSE, <<"n1">>>>, <<FALSE, <<"n2", "n1">>>>}
 ChildReqs == {[name |-> n, allprops |-> s[1], props |-> s[2], allcomps |-> ac, comps |-> << >>, expand |-> << >>] :
                 n \in {"VEVENT", "VTODO"}, s \in {<<TRUE, << >>>>, <<FALSE, <<"n1">>>>}, ac \in BOOLEAN}
@@ -25,8 +28,11 @@ CompReqs == {[name |-> "VCALENDAR", allprops |-> s[1], props |-> s[2], allcomps 
                     s \in (IF Big THEN Sel ELSE {<<FALSE, <<"n2", "n1">>>>}), cs \in Seq01(ChildReqs) \cup {<<a, b>> : a \in {c \in ChildReqs : c.name = "VEVENT" /\ c.allcomps}, b \in {c \in ChildReqs : c.name = "VTODO" /\ ~c.allcomps}},
                     x \in Expands}
 SmallCR == {c \in CompReqs : c.allcomps \/ Len(c.comps) = 2}
+DeepCR == {c \in SmallCR : /\ c.props = <<"n2", "n1">> /\ (c.allcomps => c.expand = << >>)
+                            /\ (~c.allcomps => c.expand # << >> /\ c.comps[1].allprops /\ ~c.comps[2].allprops)}
 Queries == {[comp |-> c, filter |-> f] : c \in (IF Big THEN CompReqs ELSE SmallCR), f \in TopFs}
            \cup {[comp |-> c, filter |-> f] : c \in CompReqs, f \in {t \in TopFs : t.isnd}}
+           \cup (IF Big THEN {[comp |-> c, filter |-> f] : c \in DeepCR, f \in TopFsBig} ELSE {})
 Hrefs == {"h1", "h2", "h3"}
 Multigets == {[comp |-> c, hrefs |-> h] : c \in SmallCR, h \in UNION {[1..n -> Hrefs] : n \in 1..3}}
              \cup {[comp |-> c, hrefs |-> <<"h3", "h1">>] : c \in CompReqs}
